@@ -68,20 +68,30 @@ HasAuthorityPrefix(s) == AuthorityEnd(s) # 0
 JoinRel(base, t) == IF HasAuthorityPrefix(base) THEN JoinAbs(base, t) ELSE From(JoinAbs(HTTP7 \o base, t), 8)
 
 \* ---- one inference step (reference)
+\* leading blanks and control characters do not hide the protocol of the base a relative target is joined to
+LStripJunk(s) == LET k == SelectInSeq(s, LAMBDA c : ~(IsWs(c) \/ IsControl(c))) IN IF k = 0 THEN <<>> ELSE From(s, k)
+ValueEnd(s, i) == LET a == i + Len(RKeys[KeyAt(s, i)]) + 1
+                      e == MinOr0({j \in a..Len(s) : s[j] \in {38, 35}})
+                  IN IF e = 0 THEN Len(s) ELSE e - 1
+\* the target the parameter at i gives, or <<>> when it gives none (the next parameter is then tried)
+TryAt(u, i) ==
+  LET t == UnqText(ParamValue(u, i))
+      isq == ParamKeyText(u, i) = <<113>>
+  IN IF isq /\ ~HasSub(u, <<47,117,114,108,63>>) /\ ~HasSub(u, <<47,114,101,100,105,114,101,99,116>>) THEN <<>>
+     ELSE IF StartsWith(t, HTTPS8) /\ Len(t) > 8 THEN t
+     ELSE IF StartsWith(t, HTTP7) /\ Len(t) > 7 THEN t
+     \* a joined target that is not shorter than the URL is not followed ('//' joins to the URL itself)
+     ELSE IF t # <<>> /\ t[1] = 47 THEN (LET j == JoinRel(LStripJunk(u), t) IN IF Len(j) >= Len(u) THEN <<>> ELSE j)
+     ELSE IF HasSub(u, <<121,111,117,116,117,98,101,46,99,111,109,47,114,101,100,105,114,101,99,116,63>>) THEN HTTPS8 \o t
+     ELSE <<>>
+RECURSIVE Scan(_, _)
+Scan(u, from) == LET i == FirstParam(u, from) IN
+                 IF i = 0 THEN u
+                 ELSE LET r == TryAt(u, i) IN IF r # <<>> THEN r ELSE Scan(u, ValueEnd(u, i) + 2)
 Step(u) ==
   LET m == FirstMarker(u) IN
   IF m # 0 THEN (LET tail == From(u, MarkerEndAt(u, m)) IN IF tail = <<>> THEN u ELSE HTTPS8 \o tail)
-  ELSE LET i == FirstParam(u, AuthorityEnd(u) + 1) IN
-       IF i = 0 THEN u
-       ELSE LET t == UnqText(ParamValue(u, i))
-                isq == ParamKeyText(u, i) = <<113>>
-            IN IF isq /\ ~HasSub(u, <<47,117,114,108,63,113,61>>) /\ ~HasSub(u, <<47,114,101,100,105,114,101,99,116>>) THEN u
-               ELSE IF StartsWith(t, HTTPS8) /\ Len(t) > 8 THEN t
-               ELSE IF StartsWith(t, HTTP7) /\ Len(t) > 7 THEN t
-               \* a joined target that is not shorter than the URL is not followed ('//' joins to the URL itself)
-               ELSE IF t # <<>> /\ t[1] = 47 THEN (LET j == JoinRel(u, t) IN IF Len(j) >= Len(u) THEN u ELSE j)
-               ELSE IF HasSub(u, <<121,111,117,116,117,98,101,46,99,111,109,47,114,101,100,105,114,101,99,116,63>>) THEN HTTPS8 \o t
-               ELSE u
+  ELSE Scan(u, AuthorityEnd(u) + 1)
 
 \* ---- contract on observed results: is nxt an allowed outcome of one step on u?
 AllValues(u) == {ParamValue(u, i) : i \in {j \in 1..Len(u) : IsParamStart(u, j) /\ KeyAt(u, j) # 0}}
@@ -90,7 +100,7 @@ Embedded(u, nxt) ==
   \/ nxt = u
   \/ \E w \in AllValues(u) : LET t == UnqText(w) IN
         \/ nxt = t \/ nxt = HTTPS8 \o t
-        \/ (t # <<>> /\ t[1] = 47 /\ (nxt = JoinRel(u, t) \/ HasDotSeg(t)))
+        \/ (t # <<>> /\ t[1] = 47 /\ (nxt = JoinRel(LStripJunk(u), t) \/ HasDotSeg(t)))
         \/ ~ValidUtf8(Decode(w))
   \/ \E i \in 1..Len(u) : MarkerEndAt(u, i) # 0 /\ nxt = HTTPS8 \o From(u, MarkerEndAt(u, i))
 Clause(ok, name) == IF ok THEN {} ELSE {name}
